@@ -184,12 +184,13 @@ impl Directive {
             }
             Directive::Org => {
                 if let DirectiveOps::OpList(values) = opts {
-                    if let Operand::E(Expr::Const(value)) = &values[0] {
+                    if let Operand::E(expr) = &values[0] {
+                        let value = expr.run(&context.common_context)?;
                         if !context.last_segment().unwrap().borrow().is_empty() {
                             let current_type = context.last_segment().unwrap().borrow().t;
                             context.add_segment(Segment::new(current_type));
                         }
-                        context.last_segment().unwrap().borrow_mut().address = *value as u32;
+                        context.last_segment().unwrap().borrow_mut().address = value as u32;
                     }
                 } else {
                     bail!("wrong format for .org, expected: {} in {}", opts, point,);
